@@ -319,7 +319,7 @@ fn selftest() -> (u64, u64) {
 
 pub fn check(tier: Tier) -> i32 {
     let started = Instant::now();
-    let types: Vec<Ty> = tier.pick(vec![Ty::Point, Ty::PolylineZ, Ty::PolygonM, Ty::Multipatch, Ty::MultipointM], ALL13.to_vec());
+    let types: Vec<Ty> = ALL13.to_vec();
     let ns: Vec<usize> = tier.pick(vec![1, 2, 3], vec![1, 2, 3, 4]);
     let mut cases = vec![];
     for ty in &types {
